@@ -239,6 +239,49 @@ Example C41_selection_nonvacuous :
   /\ sel_table_has_stdout_fn = true.
 Proof. vm_compute. repeat split; reflexivity. Qed.
 
+(* READING STDIN.  stdin is a list of read results; read_all is an error as soon as ANY read
+   fails, wherever it occurs, and otherwise the concatenated data *)
+Theorem C41_read_all : forall cs,
+  (In CErr cs -> read_all cs = None /\ stdin_res_of cs = SCopyFail)
+  /\ (~ In CErr cs ->
+      read_all cs = Some (flat_map (fun c => match c with CData b => b | CErr => [] end) cs)).
+Proof. exact read_all_spec_l. Qed.
+Print Assumptions C41_read_all.
+
+(* stdin_error_is_fatal: a failing read at any position (also after a partial read) makes every
+   command that reads "-" fail: non-zero exit status, nothing on stdout, nothing written to the
+   output, temporary copy removed, output path untouched — for every output argument, logger
+   state, operation and environment *)
+Theorem C41_stdin_error_is_fatal : forall cs, In CErr cs ->
+  forall d c o e acts ok init, e_stdin e = stdin_res_of cs ->
+  let r := run_stream d c ADash o e acts ok in
+  snd r = false /\ exit_status (snd r) <> 0%Z
+  /\ stdout_of (fst r) = [] /\ outfile_of (fst r) = []
+  /\ f_tin (final_fs SnkFile init (fst r)) = false
+  /\ f_out (final_fs SnkFile init (fst r)) = init.
+Proof. exact stdin_error_is_fatal_l. Qed.
+Print Assumptions C41_stdin_error_is_fatal.
+
+(* looking at the read error only when zero bytes arrived accepts a truncated stdin *)
+Theorem C41_merged_stdin_checks_refuted :
+  exists cs, In CErr cs /\ stdin_res_merged cs = SOk /\ stdin_res_of cs = SCopyFail.
+Proof. exact stdin_merged_refuted. Qed.
+Print Assumptions C41_merged_stdin_checks_refuted.
+
+(* T: in the regenerated shape of readSeekerFromStdin the statement directly after
+   `n, copyErr := io.Copy(f, os.Stdin)` is `if copyErr != nil { … return nil, err }`, its
+   condition does not involve n, and the empty-stdin check `if n == 0` comes separately *)
+Theorem C41_stdin_copy_error_checked_first : stdin_copy_shape_ok = true.
+Proof. exact stdin_copy_shape_l. Qed.
+Print Assumptions C41_stdin_copy_error_checked_first.
+
+Example C41_stdin_nonvacuous :
+  stdin_res_of [CData [37%N; 80%N]; CErr] = SCopyFail
+  /\ stdin_res_of [CErr] = SCopyFail /\ stdin_res_of [] = SEmpty
+  /\ stdin_res_of [CData [37%N]; CData [80%N]] = SOk
+  /\ read_all [CData [37%N]; CData [80%N]] = Some [37%N; 80%N].
+Proof. vm_compute. repeat split; reflexivity. Qed.
+
 (* non-vacuity: both sinks and an error occur; the tables are non-empty and contain the helpers *)
 Example C41_nonvacuous :
   (exists tr, streamInOut ADash AEmpty (mkEnv SOk true CNew true) true = POk SrcStdin SnkStdout tr false)
